@@ -61,7 +61,7 @@ class Sigma2Coeff(Contract):
 
     def inv_outer(self, env):
         coeff = env['coeff']
-        k = env[env.frame.loop_index_name] if hasattr(env.frame, 'loop_index_name') and env.frame.loop_index_name in env else 0
+        k = env.it
         j, lay = z3.Int('io_j'), z3.Int('io_lay')
         nl, nt = sub(self.n, 1), sub(self.m, 1)
         done = z3.ForAll([j, lay], Implies(And(ge(j, 0), lt(j, k), ge(lay, 0), lt(lay, nl)), eq(coeff.get(lay, j), self.spec(env.ctx, lay, j))))
@@ -71,7 +71,7 @@ class Sigma2Coeff(Contract):
     def inv_inner(self, env):
         coeff = env['coeff']
         li, b, t, ll, ul = env['li'], env['b'], env['t'], env['ll'], env['ul']
-        L = env['__it_lay']
+        L = env.it
         j, lay = z3.Int('ii_j'), z3.Int('ii_lay')
         nl, nt = sub(self.n, 1), sub(self.m, 1)
         this_done = z3.ForAll([lay], Implies(And(ge(lay, ll), lt(lay, L), lt(lay, nl)), eq(coeff.get(lay, li), overlap(b, t, lay))))
@@ -104,7 +104,7 @@ class Sigma2Coeff(Contract):
 
     @property
     def loops(self):
-        return {0: LoopSpec(inv=self.inv_outer), 1: LoopSpec(inv=self.inv_inner, decreases=lambda env: sub(env['ul'], env['__it_lay']), modifies={'coeff': self.inner_writes}, lemmas=self.inner_lemmas)}
+        return {0: LoopSpec(inv=self.inv_outer), 1: LoopSpec(inv=self.inv_inner, decreases=lambda env: sub(env['ul'], env.it), modifies={'coeff': self.inner_writes}, lemmas=self.inner_lemmas)}
 
     def ensures(self, inp, res, I):
         if not isinstance(res, SArr):
